@@ -23,7 +23,7 @@ RULE = (
     "off-curve points at normal distance >= 2e-6, and the winding contribution vs the reference subtended angle. "
     "Non-trivial: degree >= 3 or t not in {0, 1/2, 1}."
 )
-MANDATORY = ["deg:1", "deg:2", "deg:3", "deg:4", "deg:5", "deg:6", "on-curve", "off-curve", "winding", "split", "derivative"]
+MANDATORY = ["deg:1", "deg:2", "deg:3", "deg:4", "deg:5", "deg:6", "on-curve", "off-curve", "winding", "split", "derivative", "in-jordan"]
 
 
 def _num(x):
@@ -257,6 +257,51 @@ def judge_oncurve(ctx, case):
             ctx.violation("oncurve", "off-curve-point-in-segment", sub, "point %r at normal offset %r reported on the curve" % (q, off), "deg%d" % deg)
 
 
+def judge_injordan(ctx, case):
+    """segment calculus on the segments of a closed curve before and after the
+    curve is moved / scaled / rotated in place (the segments share their
+    Point2D objects with the curve; nothing evaluated earlier may survive)"""
+    from .c09 import apply_step, model_step
+
+    curve = lib.tup(case["curve"])
+    deg = max(len(sg) - 1 for sg in curve)
+    ctx.evaluated(case, True, ["in-jordan", "deg:%d" % min(deg, 6)])
+    try:
+        with call_limit(120):
+            J = lib.jordan_from_curve(curve)
+            segs = list(J.segments)
+            for sg in segs:           # warm
+                sg(F(1, 3))
+                sg.derivate(1)(F(1, 3))
+                sg.box()
+                _ = sg(F(1, 2)) in sg
+            model = [curve]
+            for step in case["steps"]:
+                apply_step(J, step)
+                model = model_step(model, step)
+            mc = model[0]
+            size = max(1.0, max(abs(float(v)) for sg in mc for p in sg for v in p))
+            for sg, ref in zip(list(J.segments), mc):
+                for t in case["ts"]:
+                    a, w = sg(t), rg.bez_eval(ref, t)
+                    if rg.dist(a, w) > 1e-9 * size:
+                        ctx.violation("injordan", "evaluation-after-transform", case, "t=%r: %r, model %r after %r" % (t, rg.fl(a), rg.fl(w), case["steps"]))
+                        return
+                    d, dw = sg.derivate(1)(t), rg.bez_eval(rg.bez_deriv(ref), t)
+                    if rg.dist(d, dw) > 1e-8 * size * max(1, len(ref)):
+                        ctx.violation("injordan", "derivative-after-transform", case, "t=%r: %r, model %r" % (t, rg.fl(d), rg.fl(dw)))
+                        return
+                    if a not in sg.box():
+                        ctx.violation("injordan", "box-after-transform", case, "t=%r point %r box %s" % (t, rg.fl(a), sg.box()))
+                        return
+                fa = (float(a[0]), float(a[1]))
+                if len(ref) <= 3 and not (fa in sg):
+                    ctx.violation("injordan", "curve-point-not-in-segment-after-transform", case, "point %r" % (fa,))
+                    return
+    except BaseException as exc:
+        ctx.violation("injordan", "raised", case, repr(exc), innermost_shapepy_frame(exc))
+
+
 # ------------------------------------------------------------------ strategies
 @st.composite
 def ctrl_points(draw, monotone=False):
@@ -334,6 +379,18 @@ def oncurve_cases(draw):
     return {"ctrl": ctrl, "ts": ts, "offsets": offs}
 
 
+@st.composite
+def injordan_cases(draw):
+    from .c09 import step
+
+    nk, deg = draw(st.sampled_from([("int", (1,)), ("frac", (1, 2)), ("float", (1, 2, 3)), ("float", (2,)), ("float", (3,)), ("frac", (1, 2, 3))]))
+    R = S.base_radius(nk)
+    curve = draw(S.simple_curve(nk, deg, (0.0, 0.0), 0.45 * R, R, draw(st.booleans()), templates=False))
+    steps = draw(st.lists(step(False), min_size=1, max_size=3))
+    ts = draw(st.lists(_params(), min_size=2, max_size=3))
+    return {"curve": curve, "steps": steps, "ts": ts}
+
+
 def _identity_cases():
     return [dict(degree=p, basis=i) for p in range(1, 7) for i in range(p + 1)]
 
@@ -344,4 +401,5 @@ def parts(tier):
         Part("identity", judge_identity, cases=_identity_cases, exhaustive=True, shards=4),
         Part("random", judge_random, random_cases(), n=3000 if q else 60000, budget_s=70 if q else 1500),
         Part("oncurve", judge_oncurve, oncurve_cases(), n=1500 if q else 30000, budget_s=70 if q else 1500),
+        Part("in-jordan", judge_injordan, injordan_cases(), n=600 if q else 12000, budget_s=60 if q else 1200),
     ]
